@@ -122,6 +122,80 @@ func runC06(r *Run) {
 	if r.Want("wire") {
 		c06Workloads(r)
 	}
+	if r.Want("sendcancel") {
+		c06CancelDuringSend(r)
+	}
+}
+
+// c06CancelDuringSend (forced schedule): the caller's context ends while a SendMsg has already passed
+// its done-check. The SendMsg is held at the yield point, the context is cancelled, the read loop
+// finishes the stream (it writes the one reset), then the SendMsg is released and fails on the
+// cancelled context. The client direction of the wire must still hold a single, final reset.
+func c06CancelDuringSend(r *Run) {
+	n := r.Scale(12, 200)
+	for i := 0; i < n; i++ {
+		settleGoroutines(0)
+		hooks.Reset(true)
+		rig := NewRig(RigOpt{Serialise: true})
+		log := NewHandlerLog()
+		InstallPrograms(rig.Impl, log, nil)
+		ctx, cancel := context.WithCancel(context.Background())
+		defer cancel()
+		ctx = metadata.AppendToOutgoingContext(ctx, "x-tag", fmt.Sprintf("sc%d", i), "x-prog", "hold")
+		method := []string{mBidi, mCliStream}[i%2]
+		cs, err := rig.CC.NewStream(ctx, descOf(method), method)
+		if err != nil {
+			r.Violate("sendcancel.open", "ops", "open failed", i, err.Error(), nil)
+			rig.Close()
+			continue
+		}
+		for j := 0; j < i%3; j++ {
+			sendB(cs, []byte("m"))
+		}
+		held := make(chan struct{})
+		releaseSend := make(chan struct{})
+		hooks.OnYield("cs.send.afterDoneCheck", func(id uint64) {
+			close(held)
+			<-releaseSend
+		})
+		sendDone := make(chan error, 1)
+		go func() { sendDone <- sendB(cs, []byte("late")) }()
+		ok := within(hangTimeout, func() { <-held })
+		hooks.OnYield("cs.send.afterDoneCheck", nil)
+		cancel()
+		fin := hooks.WaitFor(siteIs("cs.fin.done", 0), hangTimeout)
+		close(releaseSend)
+		var serr error
+		ok = ok && within(hangTimeout, func() { serr = <-sendDone })
+		r.Eval(fmt.Sprintf("sendcancel/%d", i), true)
+		r.Count("sendcancel")
+		in := map[string]any{"round": i, "method": method, "sent_before": i % 3}
+		if !ok || !fin {
+			r.Violate("sendcancel.hang", "schedule", "the stream did not finish / SendMsg did not return after the cancellation", in, goroutineDump(), nil)
+		} else if serr == nil {
+			r.Violate("sendcancel.send", "schedule", "SendMsg on a cancelled stream reported success", in, nil, "an error")
+		}
+		// everything the client will ever write for this stream is on the wire once SendMsg has returned
+		evs := rig.Wire.Snapshot()
+		resets, after := 0, 0
+		for _, e := range evs {
+			if e.Dir != "c2s" {
+				continue
+			}
+			if resets > 0 {
+				after++
+			}
+			if e.Rpc.Reset_ != nil {
+				resets++
+			}
+		}
+		if resets != 1 || after != 0 {
+			r.Violate("sendcancel.reset", "schedule", "the client must emit a single, final reset for a cancelled stream", in, fmt.Sprintf("resets=%d envelopes-after-first-reset=%d", resets, after), "resets=1 after=0")
+		}
+		checkWire(r, "sendcancel.wire", evs, in)
+		hooks.Reset(false)
+		rig.Close()
+	}
 }
 
 // scriptedRW is an RpcReadWriter whose writes succeed or fail as scripted.
